@@ -136,14 +136,14 @@ theorem wsdStep_equidistant {g : Seg} {ss : BitVec 64} {st st' : WsdSt} {idx : B
     refine ⟨_, List.getElem?_set_self hlt, ?_⟩
     cases has : sec.addrSet with
     | false =>
-      simp only [Bool.not_false, if_true, setOffset, hi, truncA]
+      simp only [Bool.not_false, if_true, setOffset_eq, hi, truncA]
       refine ⟨?_, trivial⟩
       simp only [wsd_new_addr]
       bv_omega
     | true =>
       rcases hocc with h1 | ⟨h1, h2⟩
       · rw [has] at h1; cases h1
-      · simp only [has, Bool.not_true, Bool.false_eq_true, if_false, setOffset, hi, if_true, truncA]
+      · simp only [has, Bool.not_true, Bool.false_eq_true, if_false, setOffset_eq, hi, if_true, truncA]
         refine ⟨?_, trivial⟩
         -- the address-driven gap
         have hb : wsd_addr_branch false true sec.stype sec.size = true := by
